@@ -342,3 +342,718 @@ pub fn check_c15(scn: &Scenario) -> Checked {
     stats.nontrivial = !delegated.is_empty();
     Checked { violations, stats, harness_error: None }
 }
+
+// ---------------------------------------------------------------------------------------------
+// C16
+
+const C16_POOL: &[M] = &[M::A0, M::A1, M::B1, M::E0, M::S0, M::S1, M::S2, M::Gm];
+
+pub fn gen_c16(base_seed: u64, batch: &str, run: u64, rng: &mut Rng) -> Scenario {
+    if batch == "executor" {
+        return gen_c16_async(base_seed, batch, run, rng);
+    }
+    let mut co = CfgOpts::default();
+    let mut pool = C16_POOL.to_vec();
+    rng.shuffle(&mut pool);
+    pool.truncate(rng.range(2, 4));
+    co.pool = pool.clone();
+    co.with_mut = false;
+    co.max_methods = co.pool.len();
+    co.max_patterns = 3;
+    co.ordered_pct = 20;
+    co.resp_weights = [30, 3, 1, 14, 4, 45, 3];
+    co.nested_calls = true;
+    let mut cfg = gen_config(rng, &co);
+    cfg.partial = rng.chance(1, 2);
+    // real functions call back into mocked traits (recursion through the mock included)
+    let callable: Vec<M> = C16_POOL.iter().copied().filter(|m| m.info().recv == Recv::Ref).collect();
+    for (m, prog) in cfg.real_progs.iter_mut() {
+        prog.calls.clear();
+        let n = rng.weighted(&[35, 35, 20, 10]);
+        for _ in 0..n {
+            let target = if rng.chance(1, 3) && m.info().recv == Recv::Ref { *m } else { *rng.pick(&callable) };
+            prog.calls.push((target, 1 + rng.below(3) as u8, rng.below(4) as u8));
+        }
+    }
+    let st = Steer::new(&cfg);
+    let mut ops = vec![];
+    for _ in 0..rng.range(1, 8) {
+        let (m, x, y) = if !st.flat.patterns.is_empty() && rng.chance(1, 2) {
+            let p = rng.pick(&st.flat.patterns).clone();
+            let (x, y) = st.args_for(rng, p.uid).unwrap_or((rng.below(4) as u8, rng.below(4) as u8));
+            (p.m, x, y)
+        } else {
+            (*rng.pick(&pool), rng.below(4) as u8, rng.below(4) as u8)
+        };
+        let y = if m.info().two_args { y } else { 0 };
+        let fault = if batch == "faults" && rng.chance(1, 4) { Some(Fault::ProgPanic { nth: rng.below(2) as u8, pos: rng.below(3) as u8 }) } else { None };
+        ops.push(Op::Call { slot: 0, m, x, y, catch: true, fault, keep: false });
+    }
+    ops.push(Op::Verify { slot: 0 });
+    Scenario {
+        prop: "C16".into(),
+        base_seed,
+        run,
+        batch: batch.into(),
+        config: cfg,
+        config2: None,
+        threads: vec![ops],
+        sched: seq_sched(),
+        knobs: vec![],
+    }
+}
+
+fn gen_c16_async(base_seed: u64, batch: &str, run: u64, rng: &mut Rng) -> Scenario {
+    let mut clauses = vec![];
+    let wild = |m: M, resp: Resp, quant: Quant| ClauseSpec {
+        m,
+        form: Form::EachCall,
+        patterns: vec![PatternSpec { pred: 0xf, has_matcher: true, segs: vec![Seg { resp, quant }] }],
+    };
+    let partial = rng.chance(1, 2);
+    // af: explicit applies_unmocked(), or left to the partial fall-through
+    if !partial || rng.chance(1, 2) {
+        clauses.push(wild(M::Af, Resp::Unmocked, Quant::Unq));
+    }
+    if rng.chance(2, 3) {
+        clauses.push(wild(M::Ag, if rng.chance(1, 2) { Resp::Returns } else { Resp::AnswersArc(Prog::default()) }, Quant::Unq));
+    }
+    if !partial || rng.chance(1, 2) {
+        clauses.push(wild(M::At, Resp::Unmocked, Quant::Unq));
+    }
+    clauses.push(wild(M::A1, Resp::Returns, Quant::Unq));
+    rng.shuffle(&mut clauses);
+    let mut cfg = Config { partial, clauses, nest_seed: rng.next() | 1, ..Default::default() };
+    for m in [M::Af, M::At] {
+        let mut calls = vec![];
+        for _ in 0..rng.usize(3) {
+            calls.push((M::A1, rng.below(4) as u8, 0));
+        }
+        cfg.real_progs.push((m, Prog { calls }));
+    }
+    let mut ops = vec![];
+    for _ in 0..rng.range(1, 3) {
+        let n = rng.range(1, 4);
+        let tasks: Vec<(M, u8)> = (0..n).map(|_| (*rng.pick(&[M::Af, M::Af, M::At, M::Ag]), rng.below(4) as u8)).collect();
+        let mut plan = vec![];
+        for _ in 0..rng.usize(8) {
+            let i = rng.usize(n) as u8;
+            plan.push(if rng.chance(1, 4) { ExecStep::Drop(i) } else { ExecStep::Poll(i) });
+        }
+        ops.push(Op::AsyncGroup { slot: 0, tasks, plan });
+        if rng.chance(1, 3) {
+            ops.push(Op::Call { slot: 0, m: *rng.pick(&[M::Af, M::At, M::Ag]), x: rng.below(4) as u8, y: 0, catch: true, fault: None, keep: false });
+        }
+    }
+    ops.push(Op::Verify { slot: 0 });
+    Scenario {
+        prop: "C16".into(),
+        base_seed,
+        run,
+        batch: batch.into(),
+        config: cfg,
+        config2: None,
+        threads: vec![ops],
+        sched: seq_sched(),
+        knobs: vec![],
+    }
+}
+
+/// does the configuration say this call resolves to the real implementation?
+fn expect_real(scn: &Scenario, flat: &Flat, c: &CallRec) -> bool {
+    use crate::model::*;
+    let cfg = &scn.config;
+    let Some(pre) = &c.pre else { return false };
+    if let Some(Fault::MatcherPanic { .. }) = crate::oracle::op_fault(scn, c.op) {
+        return false;
+    }
+    if !flat.mentioned(c.m) {
+        return matches!(route_unmentioned(cfg, c.m), Route::RealFn | Route::MissingRealFn);
+    }
+    let pat = if flat.ordered(c.m) {
+        match slot_owner(flat, pre.ordered) {
+            Some(p) if p.m == c.m && accepts(p, c.x, c.y) => Some(p),
+            _ => return false,
+        }
+    } else {
+        match flat.of_method(c.m).into_iter().find(|p| accepts(p, c.x, c.y)) {
+            Some(p) => Some(p),
+            None => return matches!(route_unmatched(cfg, c.m), Route::RealFn | Route::MissingRealFn),
+        }
+    };
+    let p = pat.unwrap();
+    let k = pre.counts_of(p.m).and_then(|v| v.get(p.index).copied()).unwrap_or(0) + 1;
+    match assigned_segment(p, k) {
+        Assigned::Seg(i) => p.spec.segs[i].resp == Resp::Unmocked,
+        _ => false,
+    }
+}
+
+pub fn check_c16(scn: &Scenario) -> Checked {
+    let res = world::run(scn);
+    let mut stats: RunStats = base_stats(scn, &res);
+    if let Some(e) = harness_fail(&res) {
+        return Checked { violations: vec![], stats, harness_error: Some(e) };
+    }
+    let mut violations: Vec<Violation> = vec![];
+    let flat = scn.config.flatten();
+    let probe = |st: &mut RunStats, k: &str| *st.probes.entry(k.to_string()).or_default() += 1;
+    let mut resolved: Vec<&CallRec> = vec![];
+    for c in &res.log.calls {
+        if matches!(c.outcome, Some(Outcome::Cancelled)) || c.outcome.is_none() {
+            continue;
+        }
+        if !expect_real(scn, &flat, c) {
+            continue;
+        }
+        let info = c.m.info();
+        let key = format!("{:?}:{}", c.m, if flat.mentioned(c.m) { "applies_unmocked" } else { "fall-through" });
+        if !info.has_unmock {
+            let ok = matches!(&c.outcome, Some(Outcome::MockPanic(m)) if m.contains(&c.m.path())) && c.prog.is_none();
+            if !ok {
+                violations.push(v("C16", "missing-function-panics-naming-the-method", key, format!("no real function is registered for {}; got {:?}", c.m.path(), c.outcome)));
+            }
+            continue;
+        }
+        let runs: Vec<&ProgRec> = res.log.progs.iter().filter(|p| p.call == Some(c.id) && p.kind == ProgKind::Real(c.m)).collect();
+        let first = c.prog.and_then(|i| res.log.progs.iter().find(|p| p.inv == i));
+        if runs.len() != 1 || !matches!(first, Some(p) if p.kind == ProgKind::Real(c.m)) {
+            violations.push(v(
+                "C16",
+                "real-function-called-exactly-once",
+                key,
+                format!("{:?}({},{}) resolves to the registered real function; it ran {} time(s) (first user code reached: {:?}); outcome {:?}", c.m, c.x, c.y, runs.len(), first.map(|p| p.kind), c.outcome),
+            ));
+            continue;
+        }
+        let p = runs[0];
+        if p.x != c.x || (info.two_args && p.y != c.y) {
+            violations.push(v("C16", "arguments-in-order", key.clone(), format!("called with ({},{}) but the real function received ({},{})", c.x, c.y, p.x, p.y)));
+        }
+        if p.finished && c.outcome != Some(Outcome::Value(VAL_PROG | p.inv)) {
+            violations.push(v("C16", "result-returned-unchanged", key.clone(), format!("the real function returned {:#x}, the caller got {:?}", VAL_PROG | p.inv, c.outcome)));
+        }
+        probe(&mut stats, "call_resolved_to_real_function");
+        if c.parent.is_some() {
+            probe(&mut stats, "recursion_through_the_mock");
+        }
+        if info.is_async {
+            probe(&mut stats, "async_real_function");
+        }
+        // twin candidates: fall-through calls (no pattern is counted for them, so calling the real
+        // function directly leaves the twin in exactly the same state)
+        let untouched = matches!((&c.pre, &c.post), (Some(a), Some(b)) if a.same_counts(b));
+        if c.parent.is_none() && untouched {
+            resolved.push(c);
+        }
+    }
+    stats.nontrivial = res.log.calls.iter().any(|c| matches!(c.prog.and_then(|i| res.log.progs.iter().find(|p| p.inv == i)), Some(p) if matches!(p.kind, ProgKind::Real(_)))) || !res.log.tasks.is_empty();
+    // executor world
+    if !res.log.tasks.is_empty() {
+        for t in &res.log.tasks {
+            if t.before_create.as_ref().map(|s| (&s.counts, s.ordered)) != t.after_create.as_ref().map(|s| (&s.counts, s.ordered)) {
+                violations.push(v("C16", "creating-a-future-evaluates-nothing", format!("{:?}", t.m), format!("creating the future of {:?}({}) changed the mock's counters", t.m, t.x)));
+            }
+            if t.polls == 0 {
+                probe(&mut stats, "future_dropped_unpolled");
+                if t.call.is_some() {
+                    violations.push(v("C16", "unpolled-future-evaluates-nothing", format!("{:?}", t.m), "a future that was never polled left a call record".to_string()));
+                }
+            }
+            if t.cancelled && t.polls > 0 {
+                probe(&mut stats, "future_dropped_midway");
+            }
+        }
+        // each polled future evaluated its call exactly once: per method, matches == futures polled
+        for m in [M::Af, M::Ag, M::At] {
+            if !flat.mentioned(m) {
+                continue;
+            }
+            let polled = res.log.calls.iter().filter(|c| c.m == m && c.parent.is_none() && c.mock == 0).count() as u32;
+            let finals = final_ops(scn, &res);
+            if let Some(pre) = finals.last().and_then(|(o, _)| o.pre.as_ref()) {
+                let total: u32 = pre.counts_of(m).map(|v| v.iter().sum()).unwrap_or(0);
+                if total != polled {
+                    violations.push(v(
+                        "C16",
+                        "one-evaluation-per-awaited-future",
+                        format!("{m:?}"),
+                        format!("{polled} futures of {m:?} were polled at least once (incl. blocking calls) but its patterns were matched {total} time(s)"),
+                    ));
+                }
+            }
+        }
+        // the real function ran once for every future that got past its first suspension point
+        for t in &res.log.tasks {
+            if !t.m.info().has_unmock {
+                continue;
+            }
+            let Some(cid) = t.call else { continue };
+            let runs = res.log.progs.iter().filter(|p| p.call == Some(cid) && p.kind == ProgKind::Real(t.m)).count();
+            let expected = (t.polls >= 2) as usize;
+            if runs != expected {
+                violations.push(v(
+                    "C16",
+                    "real-function-called-exactly-once",
+                    format!("{:?}:executor", t.m),
+                    format!("future of {:?}({}) was polled {} time(s): the real function body should have run {} time(s), ran {}", t.m, t.x, t.polls, expected, runs),
+                ));
+            }
+        }
+        return Checked { violations, stats, harness_error: None };
+    }
+    if !violations.is_empty() || resolved.is_empty() {
+        return Checked { violations, stats, harness_error: None };
+    }
+    // direct-call twin: real_fn(&twin, args) instead of the call that resolved to it
+    let mut ops_b = vec![];
+    let mut pairs: Vec<(usize, &CallRec)> = vec![];
+    let mut adjust: Vec<(M, usize)> = vec![];
+    let mut ordered_adjust = 0u32;
+    for (i, op) in scn.threads[0].iter().enumerate() {
+        match (op, resolved.iter().find(|c| c.op == (0, i as u16))) {
+            (Op::Call { slot, m, x, y, .. }, Some(c)) => {
+                pairs.push((ops_b.len(), c));
+                ops_b.push(Op::DirectReal { slot: *slot, m: *m, x: *x, y: *y });
+                if let (Some(pre), Some(post)) = (&c.pre, &c.post) {
+                    if let (Some(a), Some(b)) = (pre.counts_of(*m), post.counts_of(*m)) {
+                        for (k, (ca, cb)) in a.iter().zip(b).enumerate() {
+                            if *cb == *ca + 1 {
+                                adjust.push((*m, k));
+                            }
+                        }
+                    }
+                    ordered_adjust += post.ordered - pre.ordered;
+                }
+            }
+            (Op::Call { fault, .. }, None) if fault.is_some() => {
+                // a fault aimed at "the n-th user program of this call" lands elsewhere in the twin
+                return Checked { violations, stats, harness_error: None };
+            }
+            _ => ops_b.push(op.clone()),
+        }
+    }
+    if scn.threads[0].iter().any(|o| matches!(o, Op::Call { fault: Some(_), .. })) {
+        return Checked { violations, stats, harness_error: None };
+    }
+    let twin = Scenario { batch: "twin".into(), threads: vec![ops_b], sched: seq_sched(), ..scn.clone() };
+    let res_b = world::run(&twin);
+    stats.extra_runs += 1;
+    if let Some(e) = harness_fail(&res_b) {
+        return Checked { violations, stats, harness_error: Some(format!("twin: {e}")) };
+    }
+    for (bi, c) in &pairs {
+        // calls the real function made back into the mock, side by side
+        let pa = res.log.progs.iter().find(|p| Some(p.inv) == c.prog);
+        let na: Vec<Desc> = pa.map(|p| p.nested.iter().map(|id| describe_call(&res.log, &res.log.calls[*id as usize])).collect()).unwrap_or_default();
+        let nb: Vec<Desc> = res_b.log.calls.iter().filter(|x| x.op == (0, *bi as u16) && x.parent.is_none()).map(|x| describe_call(&res_b.log, x)).collect();
+        if na != nb {
+            violations.push(v(
+                "C16",
+                "re-entrant-calls-evaluated-by-the-same-mock",
+                format!("{:?}", c.m),
+                format!("calls made by the real function of {:?}({},{}) back into the mock gave {:?}; calling the function directly with a twin mock gave {:?}", c.m, c.x, c.y, na, nb),
+            ));
+            return Checked { violations, stats, harness_error: None };
+        }
+    }
+    let (fa, fb) = (final_ops(scn, &res), final_ops(&twin, &res_b));
+    if let (Some((oa, _)), Some((ob, _))) = (fa.last(), fb.last()) {
+        if let (Some(sa), Some(sb)) = (&oa.pre, &ob.pre) {
+            let mut expect = sa.counts.clone();
+            for (m, k) in &adjust {
+                if let Some((_, v)) = expect.iter_mut().find(|(mm, _)| mm == m) {
+                    v[*k] = v[*k].saturating_sub(1);
+                }
+            }
+            if expect != sb.counts || sa.ordered - ordered_adjust != sb.ordered {
+                violations.push(v(
+                    "C16",
+                    "same-counters-as-direct-call-of-the-real-function",
+                    "state",
+                    format!("counters after the history {:?}/{} (minus the unmocked calls' own matches {:?}) differ from the twin's {:?}/{}", sa.counts, sa.ordered, adjust, sb.counts, sb.ordered),
+                ));
+            }
+        }
+    }
+    Checked { violations, stats, harness_error: None }
+}
+
+// ---------------------------------------------------------------------------------------------
+// C18: behaviour depends only on clauses and call history, not on incidental layout
+
+/// run-independent and layout-independent description of one call's outcome
+fn canon_desc(flat: &Flat, log: &Log, c: &CallRec) -> String {
+    let pat = |uid: u16| flat.patterns.get(uid as usize).map(|p| format!("{:?}#{}", p.m, p.index)).unwrap_or_else(|| format!("?{uid}"));
+    match describe_call(log, c) {
+        Desc::Ret(uid, seg) => format!("ret {} seg {seg}", pat(uid)),
+        Desc::Prog(ProgKind::Answer { uid, seg }, x, y) => format!("answer {} seg {seg} ({x},{y})", pat(uid)),
+        Desc::Prog(kind, x, y) => format!("{kind:?} ({x},{y})"),
+        Desc::MockPanic(m) => format!("mock panic: {}", canon_msg(flat, &m)),
+        other => format!("{other:?}"),
+    }
+}
+
+/// replace the harness-chosen pattern names (which encode the clause position) by (method, index)
+fn canon_msg(flat: &Flat, msg: &str) -> String {
+    let mut out = msg.to_string();
+    for p in flat.patterns.iter().rev() {
+        let name = crate::build::pat_name(p.uid);
+        out = out.replace(&format!("{name} at cfg:{}", p.uid), &format!("<{:?}#{}>", p.m, p.index));
+        out = out.replace(name, &format!("<{:?}#{}>", p.m, p.index));
+    }
+    let mut lines: Vec<&str> = out.split('\n').collect();
+    lines.sort();
+    lines.join("\n")
+}
+
+fn canon_counts(s: &Snap) -> (Vec<(M, Vec<u32>)>, u32) {
+    (s.counts.clone(), s.ordered)
+}
+
+const C18_POOL: &[M] = &[M::A0, M::A1, M::B0, M::B2, M::B3, M::S0, M::S1, M::S2, M::GenU8, M::GenU16, M::GmU8, M::GmU16];
+
+/// methods that are interchangeable (same signature, same capabilities): relabelling a scenario
+/// along such a pair changes nothing but the (arbitrary) order of the internal method table
+const CLASSES: &[&[M]] = &[&[M::A1, M::S1], &[M::A0, M::S0, M::S2]];
+
+pub fn gen_c18(base_seed: u64, batch: &str, run: u64, rng: &mut Rng) -> Scenario {
+    let mut co = CfgOpts::default();
+    co.pool = C18_POOL.to_vec();
+    co.with_mut = false;
+    co.max_methods = 4;
+    co.max_patterns = 3;
+    co.ordered_pct = 35;
+    co.nested_calls = batch != "reroute"; // nested calls are made on the instance the user code is given
+    let cfg = gen_config(rng, &co);
+    let st = Steer::new(&cfg);
+    let mut ops = vec![];
+    let mut st2 = st.clone();
+    for _ in 0..rng.usize(13) {
+        let (m, x, y) = if !st.flat.patterns.is_empty() && rng.chance(3, 5) {
+            if rng.chance(1, 2) {
+                if let Some(q) = crate::model::slot_owner(&st2.flat, st2.ordered_index).cloned() {
+                    let (x, y) = st2.args_for(rng, q.uid).unwrap_or((0, 0));
+                    (q.m, x, y)
+                } else {
+                    let p = rng.pick(&st.flat.patterns).clone();
+                    let (x, y) = st.args_for(rng, p.uid).unwrap_or((rng.below(4) as u8, 0));
+                    (p.m, x, y)
+                }
+            } else {
+                let p = rng.pick(&st.flat.patterns).clone();
+                let (x, y) = st.args_for(rng, p.uid).unwrap_or((rng.below(4) as u8, 0));
+                (p.m, x, y)
+            }
+        } else {
+            let m = *rng.pick(C18_POOL);
+            (m, rng.below(4) as u8, if m.info().two_args { rng.below(4) as u8 } else { 0 })
+        };
+        st2.apply(m, x, y);
+        ops.push(Op::Call { slot: 0, m, x, y, catch: true, fault: None, keep: false });
+    }
+    ops.push(match rng.weighted(&[50, 35, 15]) {
+        0 => Op::Verify { slot: 0 },
+        1 => Op::Drop { slot: 0 },
+        _ => Op::Report { slot: 0 },
+    });
+    // the second, independent mock (used by the "two-mocks" transformation)
+    let mut co2 = CfgOpts::default();
+    co2.pool = C18_POOL.to_vec();
+    co2.with_mut = false;
+    co2.max_methods = 3;
+    co2.max_patterns = 2;
+    let cfg2 = if rng.chance(1, 3) { cfg.clone() } else { gen_config(rng, &co2) };
+    Scenario {
+        prop: "C18".into(),
+        base_seed,
+        run,
+        batch: batch.into(),
+        config: cfg,
+        config2: Some(cfg2),
+        threads: vec![ops],
+        sched: seq_sched(),
+        knobs: vec![("transform_seed".into(), (rng.next() >> 2) as i64)],
+    }
+}
+
+/// permute clauses of different methods, keeping every method's own order and the relative order
+/// of all ordered clauses
+fn permute_clauses(cfg: &Config, rng: &mut Rng) -> Config {
+    let mut out = cfg.clone();
+    // group: all ordered clauses form one sequence; each unordered method forms one sequence
+    let mut seqs: Vec<Vec<ClauseSpec>> = vec![];
+    let mut keys: Vec<Option<M>> = vec![];
+    for c in &cfg.clauses {
+        let key = if c.form.ordered() { None } else { Some(c.m) };
+        match keys.iter().position(|k| *k == key) {
+            Some(i) => seqs[i].push(c.clone()),
+            None => {
+                keys.push(key);
+                seqs.push(vec![c.clone()]);
+            }
+        }
+    }
+    let mut cursors = vec![0usize; seqs.len()];
+    let mut clauses = vec![];
+    loop {
+        let avail: Vec<usize> = (0..seqs.len()).filter(|i| cursors[*i] < seqs[*i].len()).collect();
+        if avail.is_empty() {
+            break;
+        }
+        let i = *rng.pick(&avail);
+        clauses.push(seqs[i][cursors[i]].clone());
+        cursors[i] += 1;
+    }
+    out.clauses = clauses;
+    out.nest_seed = rng.next() | 1;
+    out
+}
+
+struct Observed {
+    calls: Vec<String>,
+    counts: Option<(Vec<(M, Vec<u32>)>, u32)>,
+    verdict: Option<String>,
+}
+
+fn observe(scn: &Scenario, res: &RunResult, mock: u8, cfg: &Config) -> Observed {
+    let flat = cfg.flatten();
+    let mut calls: Vec<&CallRec> = res.log.calls.iter().filter(|c| c.mock == mock && c.parent.is_none()).collect();
+    calls.sort_by_key(|c| c.invoke_step);
+    let calls = calls.into_iter().map(|c| format!("{:?}({},{}) -> {}", c.m, c.x, c.y, canon_desc(&flat, &res.log, c))).collect();
+    let slot0 = if mock == 0 { 0 } else { world::SLOT_MOCK2 };
+    let fin = res.log.ops.iter().rev().find(|o| {
+        o.original == Some(true)
+            && matches!(scn.threads.get(o.thread as usize).and_then(|t| t.get(o.index as usize)), Some(Op::Drop { slot } | Op::Verify { slot } | Op::Report { slot }) if *slot == slot0)
+    });
+    Observed {
+        calls,
+        counts: fin.and_then(|o| o.pre.as_ref()).map(canon_counts),
+        verdict: fin.map(|o| match &o.result {
+            OpResult::Panicked(m) => format!("fail: {}", canon_msg(&flat, m)),
+            other => format!("{other:?}"),
+        }),
+    }
+}
+
+pub fn check_c18(scn: &Scenario) -> Checked {
+    let base = Scenario { config2: None, ..scn.clone() };
+    let res = world::run(&base);
+    let mut stats: RunStats = base_stats(&base, &res);
+    if let Some(e) = harness_fail(&res) {
+        return Checked { violations: vec![], stats, harness_error: Some(e) };
+    }
+    let mut violations: Vec<Violation> = vec![];
+    let probe = |st: &mut RunStats, k: &str| *st.probes.entry(k.to_string()).or_default() += 1;
+    let flat = scn.config.flatten();
+    let a = observe(&base, &res, 0, &scn.config);
+    // generic instantiations never mix: a response always belongs to the called instantiation
+    for c in &res.log.calls {
+        if let Desc::Ret(uid, _) | Desc::Prog(ProgKind::Answer { uid, .. }, _, _) = describe_call(&res.log, c) {
+            if flat.patterns.get(uid as usize).map(|p| p.m) != Some(c.m) {
+                violations.push(v("C18", "patterns-of-distinct-methods-never-mix", format!("{:?}", c.m), format!("{:?}({}) was answered by a pattern of {:?}", c.m, c.x, flat.patterns.get(uid as usize).map(|p| p.m))));
+            }
+        }
+    }
+    if res.log.calls.iter().any(|c| matches!(c.m, M::GenU8 | M::GenU16 | M::GmU8 | M::GmU16) && matches!(c.outcome, Some(Outcome::Value(_)))) {
+        probe(&mut stats, "generic_instantiation_answered");
+    }
+    let mut rng = Rng::new(scn.knob("transform_seed").unwrap_or(1) as u64);
+    let calls: Vec<Op> = base.threads[0].iter().filter(|o| matches!(o, Op::Call { .. })).cloned().collect();
+    let fin = base.threads[0].last().cloned().unwrap_or(Op::Verify { slot: 0 });
+    let mut b = base.clone();
+    b.batch = "twin".into();
+    let mut what = vec![];
+    // T1: permute clauses across methods
+    if scn.batch == "permute" || (scn.batch == "mixed" && rng.chance(1, 2)) {
+        b.config = permute_clauses(&scn.config, &mut rng);
+        what.push("clauses permuted across methods");
+        probe(&mut stats, "transformation_permute_clauses");
+    }
+    // T2: route every call through another instance on another thread, same order
+    if scn.batch == "reroute" || (scn.batch == "mixed" && !scn.config.clauses.is_empty() && rng.chance(1, 2) && b.config == scn.config && !has_nested(&scn.config)) {
+        let n_threads = rng.range(2, 4);
+        let n_clones = rng.range(1, 3);
+        let mut threads: Vec<Vec<Op>> = vec![vec![]; n_threads];
+        for c in 0..n_clones {
+            let src = if c == 0 || rng.chance(1, 2) { 0 } else { rng.range(1, c) as u8 };
+            threads[0].push(Op::Clone { src, dst: 1 + c as u8 });
+        }
+        let prelude = threads[0].len();
+        for (i, op) in calls.iter().enumerate() {
+            let t = rng.usize(n_threads);
+            let mut op = op.clone();
+            if let Op::Call { slot, .. } = &mut op {
+                *slot = rng.usize(n_clones + 1) as u8;
+            }
+            threads[t].push(Op::AwaitSeq { n: i as u32 });
+            threads[t].push(op);
+        }
+        threads[0].push(Op::AwaitSeq { n: calls.len() as u32 });
+        threads[0].push(Op::Wait { mask: 0xfe });
+        for c in 0..n_clones {
+            threads[0].push(Op::Drop { slot: 1 + c as u8 });
+        }
+        threads[0].push(fin.clone());
+        b.threads = threads;
+        b.knobs.push(("prelude".into(), prelude as i64));
+        b.sched = SchedSpec { fine: false, strategy: Strategy::Uniform, seed: rng.next(), sites: 0, choices: vec![] };
+        what.push("calls re-routed through clones on other threads");
+        probe(&mut stats, "transformation_reroute");
+    }
+    // T5: relabel two interchangeable methods everywhere (configuration, user programs, history)
+    let mut relabel: Option<(M, M)> = None;
+    if scn.batch == "relabel" || (scn.batch == "mixed" && b.threads.len() == 1 && rng.chance(1, 3)) {
+        let class = *rng.pick(CLASSES);
+        let m1 = *rng.pick(class);
+        let others: Vec<M> = class.iter().copied().filter(|m| *m != m1).collect();
+        let m2 = *rng.pick(&others);
+        let sw = |m: M| if m == m1 { m2 } else if m == m2 { m1 } else { m };
+        let swp = |p: &mut Prog| {
+            for c in p.calls.iter_mut() {
+                c.0 = sw(c.0);
+            }
+        };
+        for c in b.config.clauses.iter_mut() {
+            c.m = sw(c.m);
+            for p in c.patterns.iter_mut() {
+                for s in p.segs.iter_mut() {
+                    if let Resp::Answers(pr) | Resp::AnswersArc(pr) = &mut s.resp {
+                        swp(pr);
+                    }
+                }
+            }
+        }
+        for (m, pr) in b.config.real_progs.iter_mut() {
+            *m = sw(*m);
+            swp(pr);
+        }
+        for t in b.threads.iter_mut() {
+            for op in t.iter_mut() {
+                if let Op::Call { m, .. } = op {
+                    *m = sw(*m);
+                }
+            }
+        }
+        relabel = Some((m1, m2));
+        what.push("two interchangeable methods relabelled");
+        probe(&mut stats, "transformation_relabel");
+    }
+    // T3: a second, independent mock with its own history interleaved
+    let mut second: Option<(Config, Vec<Op>)> = None;
+    if scn.batch == "two-mocks" || (scn.batch == "mixed" && b.threads.len() == 1 && rng.chance(1, 2)) {
+        if let (Some(cfg2), 1) = (&scn.config2, b.threads.len()) {
+            let mut ops2 = vec![];
+            for _ in 0..rng.range(1, 8) {
+                let m = *rng.pick(C18_POOL);
+                ops2.push(Op::Call { slot: world::SLOT_MOCK2, m, x: rng.below(4) as u8, y: if m.info().two_args { rng.below(4) as u8 } else { 0 }, catch: true, fault: None, keep: false });
+            }
+            ops2.push(Op::Drop { slot: world::SLOT_MOCK2 });
+            // interleave, keeping both orders; the first mock's final operation stays last
+            let mut merged = vec![];
+            let (mut i, mut j) = (0, 0);
+            let ops1 = &b.threads[0];
+            while i < ops1.len() || j < ops2.len() {
+                let take_first = j >= ops2.len() || (i < ops1.len() && rng.chance(1, 2));
+                if take_first {
+                    merged.push(ops1[i].clone());
+                    i += 1;
+                } else {
+                    merged.push(ops2[j].clone());
+                    j += 1;
+                }
+            }
+            b.threads[0] = merged;
+            b.config2 = Some(cfg2.clone());
+            second = Some((cfg2.clone(), ops2));
+            what.push("a second mock used in between");
+            probe(&mut stats, "transformation_second_mock");
+        }
+    }
+    if what.is_empty() {
+        stats.nontrivial = false;
+        return Checked { violations, stats, harness_error: None };
+    }
+    let res_b = world::run(&b);
+    stats.extra_runs += 1;
+    if let Some(e) = harness_fail(&res_b) {
+        return Checked { violations, stats, harness_error: Some(format!("twin: {e}")) };
+    }
+    let mut ob = observe(&b, &res_b, 0, &b.config);
+    if let Some((m1, m2)) = relabel {
+        // translate the twin's observations back
+        let swap_text = |s: &str| {
+            let (d1, d2) = (format!("{m1:?}"), format!("{m2:?}"));
+            let (p1, p2) = (m1.path(), m2.path());
+            let mut out = s.replace(&p1, "\u{1}").replace(&p2, &p1).replace('\u{1}', &p2);
+            out = out.replace(&format!("{d1}("), "\u{2}(").replace(&format!("{d2}("), &format!("{d1}(")).replace("\u{2}(", &format!("{d2}("));
+            out = out.replace(&format!("{d1}#"), "\u{3}#").replace(&format!("{d2}#"), &format!("{d1}#")).replace("\u{3}#", &format!("{d2}#"));
+            out = out.replace(&format!("Real({d1})"), "\u{4}").replace(&format!("Real({d2})"), &format!("Real({d1})")).replace('\u{4}', &format!("Real({d2})"));
+            out
+        };
+        ob.calls = ob.calls.iter().map(|c| swap_text(c)).collect();
+        ob.verdict = ob.verdict.map(|v| match v.strip_prefix("fail: ") {
+            Some(rest) => {
+                let t = swap_text(rest);
+                let mut lines: Vec<&str> = t.split('\n').collect();
+                lines.sort();
+                format!("fail: {}", lines.join("\n"))
+            }
+            None => v,
+        });
+        ob.counts = ob.counts.map(|(mut c, o)| {
+            for e in c.iter_mut() {
+                e.0 = if e.0 == m1 { m2 } else if e.0 == m2 { m1 } else { e.0 };
+            }
+            c.sort_by_key(|e| e.0);
+            (c, o)
+        });
+    }
+    let key = what.join(" + ");
+    if a.calls != ob.calls {
+        let i = a.calls.iter().zip(&ob.calls).position(|(x, y)| x != y).unwrap_or(a.calls.len().min(ob.calls.len()));
+        violations.push(v(
+            "C18",
+            "same-outcome-for-every-call",
+            key.clone(),
+            format!("with {key}: call #{i} gave {:?} originally and {:?} after the transformation ({} vs {} calls recorded)", a.calls.get(i), ob.calls.get(i), a.calls.len(), ob.calls.len()),
+        ));
+    } else if a.counts != ob.counts {
+        violations.push(v("C18", "same-counters", key.clone(), format!("with {key}: counters {:?} vs {:?}", a.counts, ob.counts)));
+    } else if a.verdict != ob.verdict {
+        violations.push(v("C18", "same-verdict", key.clone(), format!("with {key}: verdict {:?} vs {:?}", a.verdict, ob.verdict)));
+    }
+    // the second mock behaves as if it were alone
+    if let Some((cfg2, ops2)) = second {
+        let solo_ops: Vec<Op> = ops2
+            .iter()
+            .map(|o| match o {
+                Op::Call { m, x, y, .. } => Op::Call { slot: 0, m: *m, x: *x, y: *y, catch: true, fault: None, keep: false },
+                _ => Op::Drop { slot: 0 },
+            })
+            .collect();
+        let solo = Scenario { batch: "twin".into(), config: cfg2.clone(), config2: None, threads: vec![solo_ops], sched: seq_sched(), knobs: vec![], ..scn.clone() };
+        let res_c = world::run(&solo);
+        stats.extra_runs += 1;
+        if harness_fail(&res_c).is_none() {
+            let oc = observe(&solo, &res_c, 0, &cfg2);
+            let o2 = observe(&b, &res_b, 1, &cfg2);
+            if oc.calls != o2.calls || oc.counts != o2.counts || oc.verdict != o2.verdict {
+                violations.push(v(
+                    "C18",
+                    "distinct-mocks-share-nothing",
+                    "second-mock",
+                    format!("the second mock, used next to the first one, gave {:?} / {:?} / {:?}; alone it gives {:?} / {:?} / {:?}", o2.calls, o2.counts, o2.verdict, oc.calls, oc.counts, oc.verdict),
+                ));
+            }
+        }
+    }
+    stats.nontrivial = !a.calls.is_empty();
+    Checked { violations, stats, harness_error: None }
+}
+
+fn has_nested(cfg: &Config) -> bool {
+    cfg.clauses.iter().any(|c| c.patterns.iter().any(|p| p.segs.iter().any(|s| matches!(&s.resp, Resp::Answers(pr) | Resp::AnswersArc(pr) if !pr.calls.is_empty()))))
+        || cfg.real_progs.iter().any(|(_, p)| !p.calls.is_empty())
+        || cfg.default_progs.iter().any(|(_, p)| !p.calls.is_empty())
+}
